@@ -190,6 +190,152 @@ async fn one_config(a: Args, idx: usize, proto: Proto, transport: Transport) -> 
     rep
 }
 
+
+/// Two registered users at one real server (AES 2022 with identity headers), both played by the reference client from
+/// two sockets. User B names user A's client session id in datagrams of its own - any holder of the server key can
+/// read that id off A's datagrams. Whatever the server makes of B's datagrams, nothing of A's may be answered under
+/// B's key or delivered to B's address, and nothing of B's under A's key or to A's address.
+async fn cross_user_session(a: Args, idx: usize, m: refimpl::ss::Method) -> Report {
+    use refimpl::ss;
+    let mut rep = Report::new();
+    let mut rng = Rng::derive(a.seed, 0xC06F, idx as u64);
+    let cfg = Cfg::random(&mut rng, Proto::Ss(m), 3);
+    let dir = work_dir(&a, &format!("c06x-{idx}"));
+    let mut d = Deploy::new(cfg.clone(), Transport::Tcp, true, 2, &dir);
+    d.server_mode = Some("tcp_and_udp".into());
+    let cfgname = format!("{}|users=3", m.name());
+    let (dd, tag) = (d.clone(), format!("c06x-{idx}"));
+    let started = tokio::task::spawn_blocking(move || {
+        let mut server = start_node("server", &dd.server_json(), &dd.dir, &tag, dd.workers, &dd.log_level, None, None).map_err(|e| e.to_string())?;
+        wait_ready(&mut server, Some(dd.server_port), Some(dd.server_port), Duration::from_secs(15))?;
+        Ok::<Node, String>(server)
+    })
+    .await
+    .unwrap();
+    let mut server = match started {
+        Ok(s) => s,
+        Err(e) => {
+            rep.inconclusive(format!("server does not start: {}", e.lines().next().unwrap_or("")));
+            return rep;
+        }
+    };
+    // echo target; the first payload byte is the delay of the answer in units of 10 ms
+    let t = UdpSocket::bind("127.0.0.1:0").await.unwrap();
+    let tport = t.local_addr().unwrap().port();
+    let t = Arc::new(t);
+    let t2 = t.clone();
+    let echo = tokio::spawn(async move {
+        let mut b = vec![0u8; 4096];
+        while let Ok((n, from)) = t2.recv_from(&mut b).await {
+            let (p, t3) = (b[..n].to_vec(), t2.clone());
+            tokio::spawn(async move {
+                tokio::time::sleep(Duration::from_millis(10 * p.first().copied().unwrap_or(0) as u64)).await;
+                let _ = t3.send_to(&p, from).await;
+            });
+        }
+    });
+    let target = refimpl::addr::Addr::V4([127, 0, 0, 1], tport);
+    let key_of = |u: usize| ss::Keys { psk: cfg.users[u].1.clone(), ipsks: vec![cfg.server_psk.clone()] };
+    let rounds = if a.thorough { 24 } else { 8 };
+    for round in 0..rounds {
+        let (ua, ub) = (round % 3, (round + 1 + round / 3 % 2) % 3);
+        let (sa, sb) = (UdpSocket::bind("127.0.0.1:0").await.unwrap(), UdpSocket::bind("127.0.0.1:0").await.unwrap());
+        let sid = rng.next_u64();
+        let now = std::time::SystemTime::now().duration_since(std::time::UNIX_EPOCH).unwrap().as_secs();
+        // payload: [delay][owner tag 'A'/'B'][seq][random]
+        let mk = |owner: u8, seq: u8, delay: u8, rng: &mut Rng| {
+            let mut p = vec![delay, owner, seq];
+            p.extend_from_slice(&rng.bytes(40));
+            p
+        };
+        let send = |who: usize, pid: u64, payload: Vec<u8>, rng: &mut Rng| {
+            let p = ss::S22UdpPacket { session_id: sid, packet_id: pid, type_byte: 0, timestamp: now, client_session_id: None, padding: vec![], addr: target.clone(), payload };
+            ss::s22_udp_client_encode(m, &key_of(who), &p, &rng.arr())
+        };
+        // the history (three styles): A opens the session; B speaks inside it; A goes on - with one of A's answers still pending
+        let style = round % 4;
+        let mut sent_a: Vec<Vec<u8>> = Vec::new();
+        let mut sent_b: Vec<Vec<u8>> = Vec::new();
+        let pa = mk(b'A', 1, 0, &mut rng);
+        let _ = sa.send_to(&send(ua, 1, pa.clone(), &mut rng), ("127.0.0.1", d.server_port)).await;
+        sent_a.push(pa);
+        tokio::time::sleep(Duration::from_millis(40)).await;
+        if style >= 2 {
+            // an answer for A that is still on its way while B speaks
+            let pa = mk(b'A', 2, 25, &mut rng);
+            let _ = sa.send_to(&send(ua, 2, pa.clone(), &mut rng), ("127.0.0.1", d.server_port)).await;
+            sent_a.push(pa);
+            tokio::time::sleep(Duration::from_millis(30)).await;
+        }
+        let pb = mk(b'B', 1, if style % 2 == 1 { 15 } else { 0 }, &mut rng);
+        let _ = sb.send_to(&send(ub, 1000, pb.clone(), &mut rng), ("127.0.0.1", d.server_port)).await;
+        sent_b.push(pb);
+        tokio::time::sleep(Duration::from_millis(60)).await;
+        let pa = mk(b'A', 3, 0, &mut rng);
+        let _ = sa.send_to(&send(ua, 3, pa.clone(), &mut rng), ("127.0.0.1", d.server_port)).await;
+        sent_a.push(pa);
+        rep.evaluations += (sent_a.len() + sent_b.len()) as u64;
+        // collect what comes back on both sockets for a while
+        let mut got: Vec<(char, Vec<u8>)> = Vec::new();
+        let t0 = std::time::Instant::now();
+        let mut buf = vec![0u8; 4096];
+        let mut buf2 = vec![0u8; 4096];
+        while t0.elapsed() < Duration::from_millis(700) {
+            tokio::select! {
+                r = sa.recv_from(&mut buf) => if let Ok((n, _)) = r { got.push(('A', buf[..n].to_vec())) },
+                r = sb.recv_from(&mut buf2) => if let Ok((n, _)) = r { got.push(('B', buf2[..n].to_vec())) },
+                _ = tokio::time::sleep(Duration::from_millis(50)) => {}
+            }
+        }
+        let mut a_answers = 0;
+        for (at, pkt) in got.iter() {
+            rep.mon("answers_examined_(address,_key,_content)", 1);
+            let (own, other, own_name, other_name) = if *at == 'A' { (ua, ub, "A", "B") } else { (ub, ua, "B", "A") };
+            let under_own = ss::s22_udp_client_decode(m, &cfg.users[own].1, pkt);
+            let under_other = ss::s22_udp_client_decode(m, &cfg.users[other].1, pkt);
+            let w = |extra: serde_json::Value| json!({"seed": a.seed, "config": cfgname, "round": round, "style": style, "users": {"A": ua, "B": ub}, "session_id": sid.to_string(), "detail": extra, "deploy": d.describe()});
+            match (under_own, under_other) {
+                (Ok(p), _) => {
+                    let tag = p.payload.get(1).copied().unwrap_or(0);
+                    if tag != own_name.as_bytes()[0] {
+                        rep.violation(format!("C06|nodes-udp|{}|answer-to-one-users-datagram-delivered-to-another-user", cfgname), format!("{cfgname}: the answer to user {other_name}'s datagram arrived at user {own_name}'s address under {own_name}'s key"), w(json!({"at": own_name})));
+                    } else if *at == 'A' {
+                        a_answers += 1;
+                    }
+                }
+                (Err(_), Ok(p)) => {
+                    let tag = p.payload.get(1).copied().unwrap_or(0) as char;
+                    rep.violation(
+                        format!("C06|nodes-udp|{}|answer-at-one-users-address-sealed-under-another-users-key", cfgname),
+                        format!("{cfgname}: a datagram that arrived at user {own_name}'s address opens under user {other_name}'s key (it answers {tag}'s datagram): user {other_name} named {own_name}'s session id in a datagram of its own"),
+                        w(json!({"at": own_name, "opens_under": other_name, "answers": tag.to_string()})),
+                    );
+                }
+                (Err(e), Err(_)) => rep.note(format!("{cfgname}: a datagram at {own_name}'s address opens under neither user's key: {e}")),
+            }
+        }
+        // A's own session must have gone on: its first and last datagrams are answered (the delayed one too when there is one)
+        if a_answers < sent_a.len() {
+            // loss on loopback is possible in principle; judged only when nothing of A's came back after B spoke
+            let last_ok = got.iter().any(|(at, pkt)| *at == 'A' && ss::s22_udp_client_decode(m, &cfg.users[ua].1, pkt).map(|p| p.payload.get(2) == Some(&3)).unwrap_or(false));
+            if !last_ok {
+                rep.violation(format!("C06|nodes-udp|{}|owner-of-the-session-not-answered-after-another-user-named-it", cfgname), format!("{cfgname}: after user B named user A's session id, A's next datagram is not answered to A under A's key"), json!({"seed": a.seed, "config": cfgname, "round": round, "style": style, "a_answers": a_answers, "a_sent": sent_a.len(), "deploy": d.describe()}));
+            }
+        }
+        rep.case(&("cross-user-session", idx, round), !got.is_empty());
+    }
+    if idx == 0 {
+        rep.sample(json!({"config": cfgname, "history": "A: (session S, id 1) [, (S, 2) answered late]; B: (S, 1000) under B's key from B's address; A: (S, 3)", "oracle": "every datagram arriving at a user's address opens under that user's key and answers that user's datagram"}));
+    }
+    if !server.alive() {
+        rep.violation(format!("C06|nodes-udp|{}|server-exited", cfgname), "server exited".to_string(), json!({"log": server.log_tail(8)}));
+    }
+    echo.abort();
+    drop(server);
+    let _ = std::fs::remove_dir_all(&dir);
+    rep
+}
+
 pub async fn run(a: &Args) -> Report {
     let mut m: Vec<(Proto, Transport)> = Vec::new();
     for (i, p) in all_protos().into_iter().enumerate() {
@@ -209,6 +355,14 @@ pub async fn run(a: &Args) -> Report {
         hs.push(tokio::spawn(async move {
             let _g = sem.acquire_owned().await.unwrap();
             one_config(a, idx, p, t).await
+        }));
+    }
+    for (k, m) in [refimpl::ss::Method::B3Aes128Gcm, refimpl::ss::Method::B3Aes256Gcm].into_iter().enumerate() {
+        let a = a.clone();
+        let sem = sem.clone();
+        hs.push(tokio::spawn(async move {
+            let _g = sem.acquire_owned().await.unwrap();
+            cross_user_session(a, 100 + k, m).await
         }));
     }
     let mut rep = Report::new();
